@@ -14,16 +14,16 @@ func init() {
 	registry["C03"] = &propSpec{Rules: []ruleFn{ruleC03Thresh, ruleC03Gate, ruleFresh("C03-FRESH", fCtl+"UpdateVolStatus")}, Explanation: "tbd", NotDecided: "tbd"}
 	registry["C04"] = &propSpec{Rules: []ruleFn{ruleBuildRW("C04-READERS"), ruleC04Lists("C04-LISTS"), ruleIndexMapUse("C04-READSRC"), ruleC04Verify("C04-VERIFY"), ruleC04Promote("C04-PROMOTE"), ruleC04ReadGate}, Explanation: "tbd", NotDecided: "tbd"}
 	registry["C05"] = &propSpec{Rules: []ruleFn{ruleDetach("C05-DETACH"), ruleC05Monitor("C05-MONITOR"), ruleC04Lists("C05-STOPIO")}, Explanation: "tbd", NotDecided: "tbd"}
-	registry["C07"] = &propSpec{Rules: []ruleFn{ruleC07AddOrder("C07-ADD-ORDER"), ruleC07Merge, ruleCanAdd("C07-ONE-WO"), ruleC04Verify("C07-VERIFY")}, Explanation: "tbd", NotDecided: "tbd"}
+	registry["C07"] = &propSpec{Rules: []ruleFn{ruleC07AddOrder("C07-ADD-ORDER"), ruleC07Merge, ruleC07Sync, ruleCanAdd("C07-ONE-WO"), ruleC04Verify("C07-VERIFY")}, Explanation: "tbd", NotDecided: "tbd"}
 	registry["C09"] = &propSpec{Rules: []ruleFn{ruleC09}, Explanation: "tbd", NotDecided: "tbd"}
 	registry["C13"] = &propSpec{Rules: []ruleFn{ruleC13Ctl, ruleFresh("C13-FRESH", fCtl+"UpdateCheckpoint")}, Explanation: "tbd", NotDecided: "tbd"}
 	registry["C16"] = &propSpec{Rules: []ruleFn{ruleC16Ctl, ruleC16Repl}, Explanation: "tbd", NotDecided: "tbd"}
 	registry["C18"] = &propSpec{Rules: []ruleFn{ruleC18, ruleCanAdd("C18-ADMIT"), ruleC04Promote("C18-MODE")}, Explanation: "tbd", NotDecided: "tbd"}
-	registry["C19"] = &propSpec{Rules: []ruleFn{ruleC19Promote("C19-PROMOTE")}, Explanation: "tbd", NotDecided: "tbd"}
+	registry["C19"] = &propSpec{Rules: []ruleFn{ruleC19Promote("C19-PROMOTE"), ruleC19Clone}, Explanation: "tbd", NotDecided: "tbd"}
 	registry["C14"] = &propSpec{Rules: []ruleFn{ruleC14Lock}, Explanation: "tbd", NotDecided: "tbd"}
 	registry["C06"] = &propSpec{Rules: []ruleFn{ruleC06Hole, ruleC06Snapstep}, Explanation: "tbd", NotDecided: "tbd"}
 	registry["C08"] = &propSpec{Rules: []ruleFn{ruleC08Atomic, ruleC08Err, ruleC08Commit, ruleC08Dur}, Explanation: "tbd", NotDecided: "tbd"}
 	registry["C10"] = &propSpec{Rules: []ruleFn{ruleC10, ruleC04Verify("C10-PROMOTE-COPY")}, Explanation: "tbd", NotDecided: "tbd"}
-	registry["C11"] = &propSpec{Rules: []ruleFn{ruleC11Refuse("C11-REFUSE")}, Explanation: "tbd", NotDecided: "tbd"}
+	registry["C11"] = &propSpec{Rules: []ruleFn{ruleC11Refuse("C11-REFUSE"), ruleC11Sync}, Explanation: "tbd", NotDecided: "tbd"}
 	registry["C12"] = &propSpec{Rules: []ruleFn{ruleC12, ruleC08Commit}, Explanation: "tbd", NotDecided: "tbd"}
 }
